@@ -325,11 +325,27 @@ func runShape(c *vk.Ctx, sh shapeT, args []int, nMax int, only *DynCase) (viol m
 				if pr.moved {
 					mv = "-when-stack-grows"
 				}
+				if !pr.moved && pr.panic == "" && pr.calls == 2 && pr.result == want[a]+2*bonus {
+					// The relocated stack check also fires when the runtime has poisoned the stack guard to
+					// request a preemption (a timing matter, nothing the probe controls): re-run the probe; a
+					// re-entry that does not come back in 5 further runs is that event.
+					again := 0
+					for r := 0; r < 5; r++ {
+						if p2 := probe(n, k, func() int { return sh.call(a) }, &calls); p2.calls != 1 {
+							again++
+						}
+					}
+					if again == 0 {
+						mv = "-when-stack-grows" // same finding, other trigger of the relocated stack check
+						pr.moved = true
+						stats["n_probes_reentered_on_a_preemption_request"]++
+					}
+				}
 				switch {
 				case pr.panic != "":
 					add("panic"+mv, fmt.Sprintf("%s(%d) through the mock+origin panicked: %s (stack used %d, moved=%v)", sh.name, a, vk.Short(pr.panic, 100), pr.used, pr.moved), cs)
 				case pr.calls != 1:
-					add("mock-reentered"+mv, fmt.Sprintf("%s(%d): the callback ran %d times for one call (result %d, expected %d); stack used at the call %d bytes, stack moved during the call: %v", sh.name, a, pr.calls, pr.result, want[a]+bonus, pr.used, pr.moved), cs)
+					add("mock-reentered"+mv, fmt.Sprintf("%s(%d): the callback ran %d times for one call (result %d, expected %d); stack used at the call %d bytes, relocated stack check fired (growth or preemption request): %v", sh.name, a, pr.calls, pr.result, want[a]+bonus, pr.used, pr.moved), cs)
 				case pr.result != want[a]+bonus:
 					add("wrong-result"+mv, fmt.Sprintf("%s(%d) through the origin placeholder gave %d, expected %d (stack used %d, moved=%v)", sh.name, a, pr.result, want[a]+bonus, pr.used, pr.moved), cs)
 				}
